@@ -30,36 +30,32 @@ static inline uint64_t VERIF_llvm_2eumin_2ei64(uint64_t a, uint64_t b) { return 
 static inline int32_t verif_typeid_for(const void *ti) { return ti == verif_exc_tinfo ? 1 : 2; }
 #define VERIF_llvm_2eeh_2etypeid_2efor(ti) ((uint32_t)verif_typeid_for(ti))
 #ifdef VERIF_HAVE_V16xi8
-static inline uint32_t VERIF_llvm_2ex86_2esse2_2epmovmskb_2e128(struct V16xi8 a) { uint32_t r = 0; for (int i = 0; i < 16; i++) r |= (uint32_t)((a.v[i] >> 7) & 1) << i; return r; }
-static inline struct V16xi8 VERIF_llvm_2eumax_2ev16i8(struct V16xi8 a, struct V16xi8 b) { struct V16xi8 r; for (int i = 0; i < 16; i++) r.v[i] = a.v[i] > b.v[i] ? a.v[i] : b.v[i]; return r; }
-static inline struct V16xi8 VERIF_llvm_2eumin_2ev16i8(struct V16xi8 a, struct V16xi8 b) { struct V16xi8 r; for (int i = 0; i < 16; i++) r.v[i] = a.v[i] < b.v[i] ? a.v[i] : b.v[i]; return r; }
+static inline uint32_t VERIF_llvm_2ex86_2esse2_2epmovmskb_2e128(struct V16xi8 a) { uint32_t r = 0; r |= (uint32_t)((a.v[0] >> 7) & 1) << 0; r |= (uint32_t)((a.v[1] >> 7) & 1) << 1; r |= (uint32_t)((a.v[2] >> 7) & 1) << 2; r |= (uint32_t)((a.v[3] >> 7) & 1) << 3; r |= (uint32_t)((a.v[4] >> 7) & 1) << 4; r |= (uint32_t)((a.v[5] >> 7) & 1) << 5; r |= (uint32_t)((a.v[6] >> 7) & 1) << 6; r |= (uint32_t)((a.v[7] >> 7) & 1) << 7; r |= (uint32_t)((a.v[8] >> 7) & 1) << 8; r |= (uint32_t)((a.v[9] >> 7) & 1) << 9; r |= (uint32_t)((a.v[10] >> 7) & 1) << 10; r |= (uint32_t)((a.v[11] >> 7) & 1) << 11; r |= (uint32_t)((a.v[12] >> 7) & 1) << 12; r |= (uint32_t)((a.v[13] >> 7) & 1) << 13; r |= (uint32_t)((a.v[14] >> 7) & 1) << 14; r |= (uint32_t)((a.v[15] >> 7) & 1) << 15; return r; }
+static inline struct V16xi8 VERIF_llvm_2eumax_2ev16i8(struct V16xi8 a, struct V16xi8 b) { struct V16xi8 r; r.v[0] = a.v[0] > b.v[0] ? a.v[0] : b.v[0]; r.v[1] = a.v[1] > b.v[1] ? a.v[1] : b.v[1]; r.v[2] = a.v[2] > b.v[2] ? a.v[2] : b.v[2]; r.v[3] = a.v[3] > b.v[3] ? a.v[3] : b.v[3]; r.v[4] = a.v[4] > b.v[4] ? a.v[4] : b.v[4]; r.v[5] = a.v[5] > b.v[5] ? a.v[5] : b.v[5]; r.v[6] = a.v[6] > b.v[6] ? a.v[6] : b.v[6]; r.v[7] = a.v[7] > b.v[7] ? a.v[7] : b.v[7]; r.v[8] = a.v[8] > b.v[8] ? a.v[8] : b.v[8]; r.v[9] = a.v[9] > b.v[9] ? a.v[9] : b.v[9]; r.v[10] = a.v[10] > b.v[10] ? a.v[10] : b.v[10]; r.v[11] = a.v[11] > b.v[11] ? a.v[11] : b.v[11]; r.v[12] = a.v[12] > b.v[12] ? a.v[12] : b.v[12]; r.v[13] = a.v[13] > b.v[13] ? a.v[13] : b.v[13]; r.v[14] = a.v[14] > b.v[14] ? a.v[14] : b.v[14]; r.v[15] = a.v[15] > b.v[15] ? a.v[15] : b.v[15]; return r; }
+static inline struct V16xi8 VERIF_llvm_2eumin_2ev16i8(struct V16xi8 a, struct V16xi8 b) { struct V16xi8 r; r.v[0] = a.v[0] < b.v[0] ? a.v[0] : b.v[0]; r.v[1] = a.v[1] < b.v[1] ? a.v[1] : b.v[1]; r.v[2] = a.v[2] < b.v[2] ? a.v[2] : b.v[2]; r.v[3] = a.v[3] < b.v[3] ? a.v[3] : b.v[3]; r.v[4] = a.v[4] < b.v[4] ? a.v[4] : b.v[4]; r.v[5] = a.v[5] < b.v[5] ? a.v[5] : b.v[5]; r.v[6] = a.v[6] < b.v[6] ? a.v[6] : b.v[6]; r.v[7] = a.v[7] < b.v[7] ? a.v[7] : b.v[7]; r.v[8] = a.v[8] < b.v[8] ? a.v[8] : b.v[8]; r.v[9] = a.v[9] < b.v[9] ? a.v[9] : b.v[9]; r.v[10] = a.v[10] < b.v[10] ? a.v[10] : b.v[10]; r.v[11] = a.v[11] < b.v[11] ? a.v[11] : b.v[11]; r.v[12] = a.v[12] < b.v[12] ? a.v[12] : b.v[12]; r.v[13] = a.v[13] < b.v[13] ? a.v[13] : b.v[13]; r.v[14] = a.v[14] < b.v[14] ? a.v[14] : b.v[14]; r.v[15] = a.v[15] < b.v[15] ? a.v[15] : b.v[15]; return r; }
 #endif
 #if defined(VERIF_HAVE_V8xi32) && defined(VERIF_HAVE_V16xi16)
 static inline int16_t verif_sat16(int32_t x) { return (int16_t)(x > 32767 ? 32767 : x < -32768 ? -32768 : x); }
 static inline struct V16xi16 VERIF_llvm_2ex86_2eavx2_2epackssdw(struct V8xi32 a, struct V8xi32 b) {
   struct V16xi16 r;
-  for (int lane = 0; lane < 2; lane++) for (int i = 0; i < 4; i++) {
-    r.v[lane*8+i]   = (uint16_t)verif_sat16((int32_t)a.v[lane*4+i]);
-    r.v[lane*8+4+i] = (uint16_t)verif_sat16((int32_t)b.v[lane*4+i]);
-  }
+  r.v[0] = (uint16_t)verif_sat16((int32_t)a.v[0]); r.v[4] = (uint16_t)verif_sat16((int32_t)b.v[0]); r.v[1] = (uint16_t)verif_sat16((int32_t)a.v[1]); r.v[5] = (uint16_t)verif_sat16((int32_t)b.v[1]); r.v[2] = (uint16_t)verif_sat16((int32_t)a.v[2]); r.v[6] = (uint16_t)verif_sat16((int32_t)b.v[2]); r.v[3] = (uint16_t)verif_sat16((int32_t)a.v[3]); r.v[7] = (uint16_t)verif_sat16((int32_t)b.v[3]); r.v[8] = (uint16_t)verif_sat16((int32_t)a.v[4]); r.v[12] = (uint16_t)verif_sat16((int32_t)b.v[4]); r.v[9] = (uint16_t)verif_sat16((int32_t)a.v[5]); r.v[13] = (uint16_t)verif_sat16((int32_t)b.v[5]); r.v[10] = (uint16_t)verif_sat16((int32_t)a.v[6]); r.v[14] = (uint16_t)verif_sat16((int32_t)b.v[6]); r.v[11] = (uint16_t)verif_sat16((int32_t)a.v[7]); r.v[15] = (uint16_t)verif_sat16((int32_t)b.v[7]); 
   return r;
 }
 #endif
 #if defined(VERIF_HAVE_V4xi32) && defined(VERIF_HAVE_V8xi16)
 static inline int16_t verif_sat16b(int32_t x) { return (int16_t)(x > 32767 ? 32767 : x < -32768 ? -32768 : x); }
 static inline struct V8xi16 VERIF_llvm_2ex86_2esse2_2epackssdw_2e128(struct V4xi32 a, struct V4xi32 b) {
-  struct V8xi16 r;
-  for (int i = 0; i < 4; i++) { r.v[i] = (uint16_t)verif_sat16b((int32_t)a.v[i]); r.v[4+i] = (uint16_t)verif_sat16b((int32_t)b.v[i]); }
+  struct V8xi16 r; r.v[0] = (uint16_t)verif_sat16b((int32_t)a.v[0]); r.v[4] = (uint16_t)verif_sat16b((int32_t)b.v[0]); r.v[1] = (uint16_t)verif_sat16b((int32_t)a.v[1]); r.v[5] = (uint16_t)verif_sat16b((int32_t)b.v[1]); r.v[2] = (uint16_t)verif_sat16b((int32_t)a.v[2]); r.v[6] = (uint16_t)verif_sat16b((int32_t)b.v[2]); r.v[3] = (uint16_t)verif_sat16b((int32_t)a.v[3]); r.v[7] = (uint16_t)verif_sat16b((int32_t)b.v[3]); 
   return r;
 }
 #endif
 #ifdef VERIF_HAVE_V32xi8
-static inline uint32_t VERIF_llvm_2ex86_2eavx2_2epmovmskb(struct V32xi8 a) { uint32_t r = 0; for (int i = 0; i < 32; i++) r |= (uint32_t)((a.v[i] >> 7) & 1) << i; return r; }
+static inline uint32_t VERIF_llvm_2ex86_2eavx2_2epmovmskb(struct V32xi8 a) { uint32_t r = 0; r |= (uint32_t)((a.v[0] >> 7) & 1) << 0; r |= (uint32_t)((a.v[1] >> 7) & 1) << 1; r |= (uint32_t)((a.v[2] >> 7) & 1) << 2; r |= (uint32_t)((a.v[3] >> 7) & 1) << 3; r |= (uint32_t)((a.v[4] >> 7) & 1) << 4; r |= (uint32_t)((a.v[5] >> 7) & 1) << 5; r |= (uint32_t)((a.v[6] >> 7) & 1) << 6; r |= (uint32_t)((a.v[7] >> 7) & 1) << 7; r |= (uint32_t)((a.v[8] >> 7) & 1) << 8; r |= (uint32_t)((a.v[9] >> 7) & 1) << 9; r |= (uint32_t)((a.v[10] >> 7) & 1) << 10; r |= (uint32_t)((a.v[11] >> 7) & 1) << 11; r |= (uint32_t)((a.v[12] >> 7) & 1) << 12; r |= (uint32_t)((a.v[13] >> 7) & 1) << 13; r |= (uint32_t)((a.v[14] >> 7) & 1) << 14; r |= (uint32_t)((a.v[15] >> 7) & 1) << 15; r |= (uint32_t)((a.v[16] >> 7) & 1) << 16; r |= (uint32_t)((a.v[17] >> 7) & 1) << 17; r |= (uint32_t)((a.v[18] >> 7) & 1) << 18; r |= (uint32_t)((a.v[19] >> 7) & 1) << 19; r |= (uint32_t)((a.v[20] >> 7) & 1) << 20; r |= (uint32_t)((a.v[21] >> 7) & 1) << 21; r |= (uint32_t)((a.v[22] >> 7) & 1) << 22; r |= (uint32_t)((a.v[23] >> 7) & 1) << 23; r |= (uint32_t)((a.v[24] >> 7) & 1) << 24; r |= (uint32_t)((a.v[25] >> 7) & 1) << 25; r |= (uint32_t)((a.v[26] >> 7) & 1) << 26; r |= (uint32_t)((a.v[27] >> 7) & 1) << 27; r |= (uint32_t)((a.v[28] >> 7) & 1) << 28; r |= (uint32_t)((a.v[29] >> 7) & 1) << 29; r |= (uint32_t)((a.v[30] >> 7) & 1) << 30; r |= (uint32_t)((a.v[31] >> 7) & 1) << 31; return r; }
 #endif
 #ifdef VERIF_HAVE_V4xi64
-static inline uint32_t VERIF_llvm_2ex86_2eavx_2eptestz_2e256(struct V4xi64 a, struct V4xi64 b) { uint64_t x = 0; for (int i = 0; i < 4; i++) x |= a.v[i] & b.v[i]; return x == 0; }
+static inline uint32_t VERIF_llvm_2ex86_2eavx_2eptestz_2e256(struct V4xi64 a, struct V4xi64 b) { uint64_t x = (a.v[0] & b.v[0]) | (a.v[1] & b.v[1]) | (a.v[2] & b.v[2]) | (a.v[3] & b.v[3]); return x == 0; }
 #endif
 #ifdef VERIF_HAVE_V2xi64
-static inline uint32_t VERIF_llvm_2ex86_2esse41_2eptestz(struct V2xi64 a, struct V2xi64 b) { uint64_t x = 0; for (int i = 0; i < 2; i++) x |= a.v[i] & b.v[i]; return x == 0; }
+static inline uint32_t VERIF_llvm_2ex86_2esse41_2eptestz(struct V2xi64 a, struct V2xi64 b) { uint64_t x = (a.v[0] & b.v[0]) | (a.v[1] & b.v[1]); return x == 0; }
 #endif
 #endif
